@@ -12,8 +12,7 @@ MANIFEST = {
             "pure host rule as [wx-host=..](,[is=..]) wrapped in the token chain of its enclosing at-rules, balanced "
             "braces) for sheets with :host at arbitrary at-rule depth.",
     "note": "NOT proved as one theorem: the multiset/partition statement over whole sheets (it is the executable "
-            "specification checked on every generated sheet). Known: D14 (a :host inside @layer/@container/@scope is not "
-            "converted), D26 (`: host` with whitespace/comment after the colon is accepted).",
+            "specification checked on every generated sheet). Known: D26 (`: host` with whitespace/comment after the colon is accepted); D14 (:host inside @layer/@container/@scope) was repaired",
     "technique": "Coq lemmas about the host branch (symbolic, all inputs) + executable-spec conformance of both outputs",
 }
 
